@@ -27,7 +27,7 @@ pub fn tf_call(size: usize, key: &[u8], t0: u64, t1: u64, zero_tweak_ctor: bool,
     b
 }
 
-fn ev(out: &mut dyn std::io::Write, size: usize, key: &[u8], t0: u64, t1: u64, ctor0: bool, x: &[u8], tag: &str, cfg: &str) {
+pub fn ev(out: &mut dyn std::io::Write, size: usize, key: &[u8], t0: u64, t1: u64, ctor0: bool, x: &[u8], tag: &str, cfg: &str) {
     // y = E(x); x2 = D(y); z = D(x); x3 = E(z)
     let r = guarded(|| {
         let y = tf_call(size, key, t0, t1, ctor0, x, false);
